@@ -1,5 +1,6 @@
 import PocketModel.Basic.Proto
 import PocketModel.Conc.Relay
+import PocketModel.Conc.Cache
 /-! Driver for C34: one line per schedule.  The model runs the same schedule; the final evidence,
 the per-relay outcome and the order of responses/seal are compared with what the real sub-steps
 produced, and the property (`exact`) is evaluated on the implementation's own final state. -/
@@ -80,6 +81,72 @@ def step (_ : Unit) (pre post : List String) : Unit × Verdict :=
           if evs.contains .seal then .propfail ("responded-before-seal-not-recorded" ++ tag) s!"cfg={cfg} steps={look m "steps"} stored={look r "stored"} log={look r "log"}"
           else .propfail ("lost-update" ++ tag) s!"cfg={cfg} steps={look m "steps"} stored={look r "stored"} log={look r "log"}"
         else if model = impl then .ok else .diff s!"model=[{model}] impl=[{impl}] steps={look m "steps"}"
+    | "serial" :: ws =>
+      -- relays one at a time over several sessions, tiny evidence cache, iterator and seals
+      let m := kvs ws
+      let r := kvs post
+      let cap := (look m "cap").toNat?.getD 1
+      let max := (look m "max").toNat?.getD 0
+      let nsess := (look m "sessions").toNat?.getD 0
+      let parseOp (s : String) : Option SerialCache.Op :=
+        if s = "it" then some .iter
+        else if s.startsWith "sl" then ((s.drop 2).toString.toNat?).map .sealSnap
+        else if s.startsWith "r" then
+          match ((s.drop 1).toString.splitOn ".").map String.toNat? with
+          | [some k, some p] => some (.relay k p)
+          | _ => none
+        else none
+      match ((look m "ops").splitOn ",").mapM parseOp with
+      | none => .bad "ops"
+      | some ops =>
+        let outName : SerialCache.Out → String
+          | .ok => "ok" | .sealed90 => "90" | .dup37 => "37" | .over71 => "71" | .none => "-"
+          | .sealedNow => "sealed" | .nosnap => "nosnap"
+        let renderFin (look1 : Nat → Option (List Nat)) (isSealed : Nat → Bool) : String :=
+          ";".intercalate ((List.range nsess).map fun k => match look1 k with
+            | some v => s!"{if v.isEmpty then "-" else ".".intercalate (v.map toString)}/{v.length}/{isSealed k}"
+            | none => "-/0/false")
+        -- the cache layer as coded; the final reads go through the same `get`
+        let (c, outs) := SerialCache.run false max (SerialCache.init cap) ops
+        let (finVals, cfin) := (List.range nsess).foldl (fun (acc : List (Option (List Nat)) × SerialCache.C) k =>
+          let (v, c') := SerialCache.get false acc.2 k
+          (acc.1 ++ [v], c')) ([], c)
+        let model := s!"res={",".intercalate (outs.map outName)} final={renderFin (fun k => finVals.getD k none) (fun k => cfin.sealed_.contains k)}"
+        let impl := " ".intercalate post
+        -- the cache-free reference (plain map; the claim loop's stale write-back is part of it)
+        let (rf, _) := SerialCache.rrun max SerialCache.rinit ops
+        -- the property on the implementation's own answers
+        let res := (look r "res").splitOn ","
+        let finals := ((look r "final").splitOn ";").map fun f => match f.splitOn "/" with
+          | [ids, n, _] => ((if ids = "-" then [] else (ids.splitOn ".").filterMap String.toNat?), n.toNat?.getD 0)
+          | _ => ([], 0)
+        let events := ops.zip res
+        -- answered ids per session, in order, with the flag "before the explicit seal of that session"
+        let answered (k : Nat) : List (Nat × Bool) :=
+          (events.foldl (fun (acc : List (Nat × Bool) × Bool) e => match e with
+            | (.relay k' p, "ok") => if k' = k then (acc.1 ++ [(p, !acc.2)], acc.2) else acc
+            | (.sealSnap k', "sealed") => if k' = k then (acc.1, true) else acc
+            | _ => acc) ([], false)).1
+        let tag := if model = impl then "" else "/model-disagrees"
+        let detail := s!"cap={cap} max={max} ops={look m "ops"} res={look r "res"} final={look r "final"}"
+        let bad : Option String := (List.range nsess).findSome? fun k =>
+          let a := answered k
+          let ids := a.map (·.1)
+          let (st, n) := finals.getD k ([], 0)
+          if !decide ids.Nodup then some "replayed-relay-accepted"
+          else if ids.length > max || n > max || st.length > max then some "over-limit"
+          else if !decide st.Nodup then some "dup-under-interleaving"
+          else
+            let lost := a.filter fun (p, before) => before && !st.contains p
+            if lost.isEmpty then none
+            else
+              -- is the loss already explained without any cache (stale snapshot written back by the seal)?
+              let refStored := (SerialCache.lookup rf.m k).getD []
+              if lost.all fun (p, _) => !refStored.contains p then some "responded-before-seal-not-recorded"
+              else some "answered-relay-not-recorded"
+        match bad with
+        | some sig => .propfail (sig ++ tag) detail
+        | none => if model = impl then .ok else .diff s!"model=[{model}] impl=[{impl}] ops={look m "ops"} cap={cap}"
     | "free" :: ws =>
       let m := kvs ws
       let r := kvs post
